@@ -16,8 +16,12 @@ package main
 // of a frame are run by ONE Go-level defer of `callFunction` whose first statement is the loop
 // over `callFrame.defers`, each through `vm.callObject(ctx, …)` with the same context, and
 // nothing in it mentions the halt flag (model: `leaveT` — a deferred closure's first
-// instruction polls the flag like any other; `halt_stops_deferred_calls`).  The facts are
-// regenerated on every run and compared with the model's expectations in C06/Ties.lean.
+// instruction polls the flag like any other; `halt_stops_deferred_calls`).  The top-level code
+// of an imported module is evaluated by `importModule(ctx, …)` with `vm.eval(ctx)` — the context
+// the importing `eval` runs under, handed over by every call site in `eval` unchanged (model:
+// code inside an `.imp` frame sees the same signal as the code around it; `stepImp .follows`).
+// The facts are regenerated on every run and compared with the model's expectations in
+// C06/Ties.lean.
 
 import (
 	"fmt"
@@ -146,6 +150,7 @@ func init() {
 		}
 
 		eval, callFn, callObj, initCtx := method("eval"), method("callFunction"), method("callObject"), method("initContext")
+		importMod := method("importModule")
 
 		// the dispatch loop of eval: the first `for` statement of its body
 		var loop *ast.ForStmt
@@ -282,6 +287,139 @@ func init() {
 			})
 			return true
 		})
+		// importModule: its first parameter, the argument(s) of its `vm.eval(…)` call(s), whether `ctx`
+		// is reassigned or a context is derived (any call into package context) in it; eval: the
+		// context argument of every `vm.importModule(…)` call, whether eval reassigns its `ctx`
+		reassigns := func(body ast.Node) bool {
+			found := false
+			ast.Inspect(body, func(n ast.Node) bool {
+				if a, ok := n.(*ast.AssignStmt); ok {
+					for _, l := range a.Lhs {
+						if id, ok := l.(*ast.Ident); ok && id.Name == "ctx" {
+							found = true
+						}
+					}
+				}
+				return true
+			})
+			return found
+		}
+		importFirstParam := ""
+		if ps := importMod.Type.Params.List; len(ps) > 0 && len(ps[0].Names) > 0 {
+			importFirstParam = ps[0].Names[0].Name + " " + types.ExprString(ps[0].Type)
+		}
+		importEvalArgs := []string{}
+		importDerives := false
+		ast.Inspect(importMod.Body, func(n ast.Node) bool {
+			if c, ok := n.(*ast.CallExpr); ok {
+				if types.ExprString(c.Fun) == "vm.eval" {
+					for _, a := range c.Args {
+						importEvalArgs = append(importEvalArgs, types.ExprString(a))
+					}
+				}
+				if sel, ok := c.Fun.(*ast.SelectorExpr); ok {
+					if id, ok := sel.X.(*ast.Ident); ok && id.Name == "context" {
+						importDerives = true
+					}
+				}
+			}
+			return true
+		})
+		importCallCtxArgs := []string{}
+		ast.Inspect(eval.Body, func(n ast.Node) bool {
+			if c, ok := n.(*ast.CallExpr); ok && types.ExprString(c.Fun) == "vm.importModule" {
+				if len(c.Args) > 0 {
+					importCallCtxArgs = append(importCallCtxArgs, types.ExprString(c.Args[0]))
+				} else {
+					importCallCtxArgs = append(importCallCtxArgs, "")
+				}
+			}
+			return true
+		})
+		// before the module body runs: `vm.importer.Import(…)` in importModule (its arguments), the
+		// local importer's chain Import(ctx) -> parseAndCompile(ctx, …) -> parser.Parse(ctx, …), and the
+		// check of `ctx.Done()` at the head of the statement loop of Parser.Parse
+		importerCallArgs := []string{}
+		ast.Inspect(importMod.Body, func(n ast.Node) bool {
+			if c, ok := n.(*ast.CallExpr); ok && types.ExprString(c.Fun) == "vm.importer.Import" {
+				for _, a := range c.Args {
+					importerCallArgs = append(importerCallArgs, types.ExprString(a))
+				}
+			}
+			return true
+		})
+		parseOne := func(rel string) *ast.File {
+			f, err := parser.ParseFile(fset, filepath.Join(repo, rel), nil, 0)
+			if err != nil {
+				panic(err)
+			}
+			return f
+		}
+		funcIn := func(f *ast.File, recv, name string) *ast.FuncDecl {
+			for _, d := range f.Decls {
+				fd, ok := d.(*ast.FuncDecl)
+				if !ok || fd.Name.Name != name || fd.Body == nil {
+					continue
+				}
+				if recv == "" && fd.Recv == nil {
+					return fd
+				}
+				if recv != "" && fd.Recv != nil && len(fd.Recv.List) == 1 && strings.TrimPrefix(types.ExprString(fd.Recv.List[0].Type), "*") == recv {
+					return fd
+				}
+			}
+			panic("function " + recv + "." + name + " not found")
+		}
+		firstParamOf := func(fd *ast.FuncDecl) string {
+			if ps := fd.Type.Params.List; len(ps) > 0 && len(ps[0].Names) > 0 {
+				return ps[0].Names[0].Name + " " + types.ExprString(ps[0].Type)
+			}
+			return ""
+		}
+		firstArgsOf := func(fd *ast.FuncDecl, callee string) string {
+			var as []string
+			ast.Inspect(fd.Body, func(n ast.Node) bool {
+				if c, ok := n.(*ast.CallExpr); ok && types.ExprString(c.Fun) == callee {
+					if len(c.Args) > 0 {
+						as = append(as, types.ExprString(c.Args[0]))
+					} else {
+						as = append(as, "")
+					}
+				}
+				return true
+			})
+			return strings.Join(as, ",")
+		}
+		impFile, parFile := parseOne("importer/importer.go"), parseOne("parser/parser.go")
+		liImport, pac := funcIn(impFile, "LocalImporter", "Import"), funcIn(impFile, "", "parseAndCompile")
+		ctxChain := []string{
+			"Import(" + firstParamOf(liImport) + ")",
+			"parseAndCompile(" + firstArgsOf(liImport, "parseAndCompile") + ")",
+			"parseAndCompile(" + firstParamOf(pac) + ")",
+			"parser.Parse(" + firstArgsOf(pac, "parser.Parse") + ")",
+		}
+		ctxChainReassigned := reassigns(liImport.Body) || reassigns(pac.Body)
+		// Parser.Parse: the first statement of the body of its first `for` loop is a select whose
+		// first clause receives from ctx.Done() and returns nil, ctx.Err()
+		parserCheck := []string{}
+		pp := funcIn(parFile, "Parser", "Parse")
+		for _, st := range pp.Body.List {
+			loop, ok := st.(*ast.ForStmt)
+			if !ok {
+				continue
+			}
+			if len(loop.Body.List) > 0 {
+				if sel, ok := loop.Body.List[0].(*ast.SelectStmt); ok && len(sel.Body.List) > 0 {
+					if cc, ok := sel.Body.List[0].(*ast.CommClause); ok && cc.Comm != nil {
+						parserCheck = append(parserCheck, str(cc.Comm))
+						for _, b := range cc.Body {
+							parserCheck = append(parserCheck, str(b))
+						}
+					}
+				}
+			}
+			break
+		}
 		// initContext: what is registered as the call function
 		registered := ""
 		ast.Inspect(initCtx.Body, func(n ast.Node) bool {
@@ -322,6 +460,18 @@ func init() {
 		s += "def deferRunnerLoopFirst : Bool := " + b(runnerLoopFirst) + "\n"
 		s += "def deferRunnerCall : String := " + fmt.Sprintf("%q", runnerCall) + "\n"
 		s += "def deferRunnerTouchesHalt : Bool := " + b(runnerTouchesHalt) + "\n"
+		s += "/-- `importModule`: first parameter, the arguments of its `vm.eval(…)` calls, whether `ctx` is reassigned in it, whether it calls into package `context` at all (derives a context); `eval`: the first argument of every `vm.importModule(…)` call, whether `eval` reassigns its `ctx` -/\n"
+		s += "def importModuleFirstParam : String := " + fmt.Sprintf("%q", importFirstParam) + "\n"
+		s += "def importModuleEvalArgs : List String := " + strList(importEvalArgs) + "\n"
+		s += "def importModuleReassignsCtx : Bool := " + b(reassigns(importMod.Body)) + "\n"
+		s += "def importModuleDerivesCtx : Bool := " + b(importDerives) + "\n"
+		s += "def importModuleCallCtxArgs : List String := " + strList(importCallCtxArgs) + "\n"
+		s += "def evalReassignsCtx : Bool := " + b(reassigns(eval.Body)) + "\n"
+		s += "/-- before the module body runs: the arguments of `vm.importer.Import(…)` in `importModule`; the local importer's chain (first parameter of `LocalImporter.Import`, first argument of its `parseAndCompile` call, first parameter of `parseAndCompile`, first argument of its `parser.Parse` call), whether `ctx` is reassigned in either; the first clause of the `select` that opens the statement loop of `Parser.Parse` (its communication and body) -/\n"
+		s += "def importerCallArgs : List String := " + strList(importerCallArgs) + "\n"
+		s += "def localImporterCtxChain : List String := " + strList(ctxChain) + "\n"
+		s += "def localImporterReassignsCtx : Bool := " + b(ctxChainReassigned) + "\n"
+		s += "def parserCtxCheck : List String := " + strList(parserCheck) + "\n"
 		s += "\nend Risor.Generated.C06\n"
 		return s
 	}})
